@@ -84,6 +84,7 @@ fn token_unique_entities()
     };
     let mut it = token.iter_unique_entities();
     assert!(it.next() == Some(e1) && it.next() == Some(e2) && it.next().is_none(), "C16: every named entity once (local data is cleaned once per entity, no entity is skipped)");
+    kani::cover!(true, "end of harness reached");
 }
 
 #[kani::proof]
